@@ -263,7 +263,7 @@ fn menu(nr: i64, thorough: bool) -> Vec<(i32, bool)> {
 // shared page between P, the forked child and the shard
 
 const TRACE_CAP: usize = 200;
-const OBS_CAP: usize = 1 << 19;
+const OBS_CAP: usize = 1 << 21;
 
 #[repr(C)]
 struct TraceEnt {
@@ -493,7 +493,7 @@ unsafe fn read_fd_all(fd: i32) -> (Vec<u8>, i32) {
             return (v, 0);
         }
         v.extend_from_slice(&buf[..n as usize]);
-        if v.len() > OBS_CAP / 8 {
+        if v.len() > OBS_CAP / 4 {
             return (v, 0);
         }
     }
@@ -931,6 +931,11 @@ fn ident_eq(a: &Value, b: &Value) -> bool {
 /// The oracle for a run in which spawn must have succeeded: the helper's dump equals the configuration.
 fn judge_ok(ctx: &Ctx, cfg: &Config, obs: &Value, r: &mut Report, rp: &Value) {
     let h = &obs["helper"];
+    if !h["unparsable"].is_null() {
+        r.cap(format!("the program's dump could not be parsed (too large for the harness's buffers?) in {rp}"));
+        r.notes.push("machinery-failure".into());
+        return;
+    }
     if h.is_null() || h["proto"].as_u64().is_none() {
         r.outcome("ok-but-no-dump");
         r.violation("C13:spawn:ok-but-program-not-run", format!("spawn returned Ok but the requested program left no dump (wait: {})", obs["wait"]), rp.clone());
